@@ -536,7 +536,11 @@ def from_xsd(value: str, type_: Type[AnyXSDType]) -> AnyXSDType:  # workaround. 
         if not INTEGER_RE.match(value):
             raise ValueError("Value is not a valid XSD integer string")
         return type_(value)
-    elif issubclass(type_, (float, str)):
+    elif issubclass(type_, float):
+        if not FLOAT_RE.match(value):
+            raise ValueError("Value is not a valid XSD float string")
+        return type_(value)
+    elif issubclass(type_, str):
         return type_(value)
     elif type_ is decimal.Decimal:
         try:
@@ -575,6 +579,7 @@ def from_xsd(value: str, type_: Type[AnyXSDType]) -> AnyXSDType:  # workaround. 
 
 # Leading and trailing XSD whitespace (space, tab, LF, CR) is removed by the whiteSpace facet 'collapse' of these types
 INTEGER_RE = re.compile(r'^[ \t\n\r]*[+\-]?[0-9]+[ \t\n\r]*$')
+FLOAT_RE = re.compile(r'^[ \t\n\r]*([+\-]?([0-9]+(\.[0-9]*)?|\.[0-9]+)([Ee][+\-]?[0-9]+)?|[+\-]?INF|NaN)[ \t\n\r]*$')
 DURATION_RE = re.compile(r'^(-?)P(\d+Y)?(\d+M)?(\d+D)?(T(\d+H)?(\d+M)?((\d+)(\.\d+)?S)?)?$')
 DATETIME_RE = re.compile(r'^(-?)(\d\d\d\d)-(\d\d)-(\d\d)T(\d\d):(\d\d):(\d\d)(\.\d+)?([+\-](\d\d):(\d\d)|Z)?$')
 TIME_RE = re.compile(r'^(\d\d):(\d\d):(\d\d)(\.\d+)?([+\-](\d\d):(\d\d)|Z)?$')
